@@ -2427,7 +2427,8 @@ def c03(rep, tier, seed, wd, replay):
                        "before the kill (Lean judge), must equal the model's store either before or after the interrupted request, and "
                        "conflicting probes must be refused; (c) the open store's SyncWrites option is read back, and one run under strace "
                        "checks the value log is opened O_DSYNC (or fsynced) before the store call returns; non-trivial = kill point after at "
-                       "least one released signature")
+                       "least one released signature; "
+                       "(d) permanence: two histories are run with and without server.rules.periodic-pruning, the instance stopped and the closed store opened read-only with badger itself: no record may carry an expiry time")
     rep.assumptions += ["SIGKILL cannot lose page-cache data: durability against power loss is assumed from SyncWrites (probed by option read-back and syscall trace only)",
                         "badger replays what it synced; torn writes inside badger are not modelled"]
     prove(rep, "C03")
@@ -2467,6 +2468,26 @@ def c03(rep, tier, seed, wd, replay):
         total_points += n
         for j in range(n):
             cases.append((hi, j))
+        if hi < 2 and not (REPLAY is not None and "kill_at_point" in REPLAY):
+            # permanence of what was recorded: the same history with and without the store's periodic maintenance enabled, the
+            # instance stopped, and the CLOSED store opened read-only with badger itself — a record of a released signature that
+            # carries an expiry time is gone after a long enough downtime, and the conflicting request is then signed
+            for pi_, pre_ in enumerate(([], ["pruning"])):
+                d2 = os.path.join(base, "h%d-perm%d" % (hi, pi_), "dir")
+                os.makedirs(os.path.dirname(d2), exist_ok=True)
+                out2, rc2, err2 = crash.run_child(dh, d2, pre_ + cfg + ops, points=False)
+                stor = [os.path.join(r_, "storage") for r_, ds_, _ in os.walk(os.path.dirname(d2)) if "storage" in ds_]
+                if rc2 != 0 or not stor:
+                    raise Broken("crash-engine", "permanence run failed: " + err2[-500:])
+                pe = __import__("subprocess").run([dh, "expiry", stor[0]], text=True, stdout=__import__("subprocess").PIPE, stderr=__import__("subprocess").PIPE, env=__import__("common").GOENV, timeout=120).stdout.splitlines()
+                if not pe or not pe[-1].startswith("records ") or pe[-1] == "records 0":
+                    raise Broken("crash-engine", "permanence probe could not read the store: " + "\n".join(pe)[-400:])
+                rep.count("permanence|" + ("pruning" if pre_ else "default"), True)
+                exp_ = [l_ for l_ in pe[:-1] if len(l_.split()) == 2]
+                if exp_:
+                    rep.violation("protection-record-expires", "a slashing-protection record written for a released signature carries an expiry time (%d of %s): after a crash "
+                                  "and a downtime beyond it the store answers 'never signed' and the conflicting request is approved (the wait itself is not executed)" % (len(exp_), pe[-1]),
+                                  {"config": pre_ + cfg, "ops": ops, "expiring_records": exp_[:8], "then": "kill, restart after the expiry time, repeat any released duty with another root"})
 
     if REPLAY is not None and "kill_at_point" in REPLAY:
         # the recorded point first, then every other point of that history (what a kill leaves behind can depend on timing)
@@ -3463,6 +3484,14 @@ def c16(rep, tier, seed, wd, replay):
                     found = True
                 elif not o.startswith("ok="):
                     rep.broken.append(("harness:shareowners", json.dumps({"scenario": r_["tag"], "result": o}), False))
+            if f[0] == "sendowners":
+                rep.dist("sendowners", o.split()[0])
+                if o.startswith("MISMATCH"):
+                    rep.violation("share-sent-to-another-participant", "a share handed to the transport during Execute (with sends failing in transit) is not the share of the endpoint it was addressed to: " + o,
+                                  {"scenario": r_["tag"], "lines": r_["lines"][:i + 1], "impl": r_["impl"][:i + 1]})
+                    found = True
+                elif not o.startswith("ok=") or o == "ok=0":
+                    rep.broken.append(("harness:sendowners", json.dumps({"scenario": r_["tag"], "result": o}), False))
             if f[0] == "shareowner":
                 rep.dist("shareowner", o)
                 if o != "share-for=%s" % f[2]:
